@@ -154,13 +154,9 @@ theorem disconnect_idle (fuel : Nat) (h2 : 2 ≤ fuel) (c : Core) (sp : List Pc)
   split
   · rename_i w hw
     have hs := closeConn_same c w
-    split
-    · obtain ⟨_, d2, d3⟩ := discTail_idle n (closeConn c w) sp (some w) r hr hsp
-      obtain ⟨e1, e2⟩ := d3 hn (hs.rw.trans hw)
-      exact disconnected_ok _ r hr e1 e2 d2
-    · refine ⟨⟨hs.pre hpre, by simpa [okPc] using hr, hsp⟩, ?_⟩
-      intro _ _
-      simp [promising, hs.rw, hw]
+    refine ⟨⟨hs.pre hpre, by simpa [okPc] using hr, hsp⟩, ?_⟩
+    intro _ _
+    simp [promising, hs.rw, hw]
   · rename_i hw
     obtain ⟨_, d2, d3⟩ := discTail_idle n c sp none r hr hsp
     obtain ⟨e1, e2⟩ := d3 hn hw
